@@ -41,6 +41,10 @@
 (*                  removes the claim marker of the delete that holds it                          *)
 (*   lookupWrites   ("lazyClean" in Deviate)  LookupByDomain deletes an index entry whose record  *)
 (*                  it does not find - e.g. the entry a running CreateMapping has just claimed    *)
+(*   doubleRegister ("splitRegister" in Deviate)  DomainRegistry.Register / the management create *)
+(*                  check "name free?" and insert in two critical sections: two parallel legacy   *)
+(*                  claims of one name are both acknowledged (no storage gate lies between the    *)
+(*                  two halves, so this one is driven by parallel free-running Register rounds)   *)
 EXTENDS Naturals, Sequences, FiniteSets, TLC, Json
 
 CONSTANTS ProcsC1, ProcsC2,  \* API-call processes acting with the proven identity of client c1 / c2
@@ -61,18 +65,21 @@ CONSTANTS ProcsC1, ProcsC2,  \* API-call processes acting with the proven identi
           OnlyDelete,        \* processes that only issue Delete calls / only Create calls ({} = no restriction);
           OnlyCreate,        \*   used by the three-deleters-one-claimant configuration
           Deviate,           \* named deviations of the code that are switched on (see below); {} = the code as it is
+          DelFaults,         \* TRUE: the one failing storage operation may be ANY operation of the repaired DeleteMapping
+                             \*       (reads, the claim, the list removal, the release), not only its two deletes
           Emit
 
 VARIABLES nextId, index, rec, clist, dlock,   \* the store
           reg, cc, nleg,                       \* legacy registry of the proxy node, cloud control, #legacy ids
           pc, cur, tmp, done, fault,
+          lpend, legown,                       \* legacy claims that passed the check; acknowledged legacy owners
           okc, failc, deld, delok, inact, meta, legdead, snap, bad, dev,   \* ghosts
           hist
 
 vars == <<nextId, index, rec, clist, dlock, reg, cc, nleg, pc, cur, tmp, done, fault,
-          okc, failc, deld, delok, inact, meta, legdead, snap, bad, dev, hist>>
+          lpend, legown, okc, failc, deld, delok, inact, meta, legdead, snap, bad, dev, hist>>
 view == <<nextId, index, rec, clist, dlock, reg, cc, nleg, pc, cur, tmp, done, fault,
-          okc, failc, deld, delok, inact, meta, legdead, snap, bad, dev>>
+          lpend, legown, okc, failc, deld, delok, inact, meta, legdead, snap, bad, dev>>
 
 CProcs == ProcsC1 \cup ProcsC2
 Procs == CProcs \cup LookProcs
@@ -118,7 +125,7 @@ Init == /\ nextId = PreN
         /\ fault = Faults
         /\ okc = (IF Pre THEN {1} ELSE {}) /\ failc = {} /\ deld = {} /\ delok = {} /\ inact = {}
         /\ meta = [i \in Ids |-> IF Pre /\ i = 1 THEN [c |-> "c1", n |-> FirstName, k |-> FirstName] ELSE [c |-> "-", n |-> "-", k |-> "-"]]
-        /\ legdead = {} /\ snap = [p \in Procs |-> NoSnap]
+        /\ legdead = {} /\ snap = [p \in Procs |-> NoSnap] /\ lpend = {} /\ legown = {}
         /\ bad = {} /\ dev = {} /\ hist = <<>>
 
 Out(h) == IF Emit THEN PrintT("BEH " \o ToJson(h)) ELSE TRUE
@@ -134,7 +141,7 @@ Known == IF Guess THEN Ids ELSE okc        \* ids a client can name in a Delete 
 AllIdle == \A q \in Procs : pc[q] = "idle"
 
 U_store == UNCHANGED <<nextId, index, rec, clist, dlock>>
-U_leg == UNCHANGED <<reg, cc, nleg, legdead>>
+U_leg == UNCHANGED <<reg, cc, nleg, legdead, lpend, legown>>
 U_ghost == UNCHANGED <<okc, failc, deld, delok, inact, meta, snap, bad, dev>>
 
 \* ---- calls ------------------------------------------------------------------------------------
@@ -294,6 +301,23 @@ DRec(p) ==   \* Delete(mapping:<id>)
                   ELSE Return(p) /\ cur' = cur /\ Log(St(p, "DelRec", TRUE, "fail"))
   /\ UNCHANGED <<nextId, index, clist, dlock, tmp, okc, failc, delok, inact, meta, snap, bad, dev>> /\ U_leg
 
+\* DelFaults: any other storage operation of the repaired DeleteMapping is the one that fails
+\*   Get(mapping) before the claim, SetNX(lock): the call reports the error, nothing has happened
+\*   Get(mapping) / Get(index) under the claim: the call reports the error and releases the claim
+\*   RemoveFromList: ignored by the code;  Delete(lock): ignored, the marker stays until its TTL runs out
+DFault(p) ==
+  /\ Fix /\ DelFaults /\ fault > 0 /\ fault' = fault - 1
+  /\ pc[p] \in {"D_get", "D_lock", "D_get2", "D_iget", "D_list", "D_unlock"}
+  /\ CASE pc[p] = "D_get" -> Return(p) /\ cur' = cur /\ delok' = delok /\ Log(St(p, "DelGet", TRUE, "fail"))
+       [] pc[p] = "D_lock" -> Return(p) /\ cur' = cur /\ delok' = delok /\ Log(St(p, "DelLock", TRUE, "fail"))
+       [] pc[p] = "D_get2" -> Goto(p, "D_unlock") /\ cur' = [cur EXCEPT ![p].res = "fail"] /\ delok' = delok /\ Log(St(p, "DelGet2", TRUE, "-"))
+       [] pc[p] = "D_iget" -> Goto(p, "D_unlock") /\ cur' = [cur EXCEPT ![p].res = "fail"] /\ delok' = delok /\ Log(St(p, "DelIdxGet", TRUE, "-"))
+       [] pc[p] = "D_list" -> Goto(p, "D_unlock") /\ cur' = cur /\ delok' = delok /\ Log(St(p, "DelList", TRUE, "-"))
+       [] pc[p] = "D_unlock" -> /\ Return(p) /\ cur' = cur
+                                /\ delok' = IF cur[p].res = "ok" /\ cur[p].id \in deld THEN delok \cup {cur[p].id} ELSE delok
+                                /\ Log(St(p, "DelUnlock", TRUE, cur[p].res))
+  /\ UNCHANGED <<nextId, index, rec, clist, dlock, tmp, okc, failc, deld, inact, meta, snap, bad, dev>> /\ U_leg
+
 DList(p) ==  \* RemoveFromList(client:<c>, id); errors are ignored by the code
   /\ pc[p] = "D_list"
   /\ clist' = [clist EXCEPT ![Cl(p)] = @ \ {cur[p].id}]
@@ -436,7 +460,7 @@ LIdx(q) ==   \* Get(index:<name>)
      THEN Return(q) /\ Fallback(q, cur[q].fb) /\ cur' = cur
      ELSE /\ cur' = [cur EXCEPT ![q].id = index[k]] /\ Goto(q, "L_rec")
           /\ reg' = reg /\ bad' = bad /\ Log(St(q, "L_idx", FALSE, "-"))
-  /\ UNCHANGED <<tmp, fault, cc, nleg, legdead, okc, failc, deld, delok, inact, meta, snap, dev>> /\ U_store
+  /\ UNCHANGED <<tmp, fault, cc, nleg, legdead, lpend, legown, okc, failc, deld, delok, inact, meta, snap, dev>> /\ U_store
 
 LRec(q) ==   \* Get(mapping:<id>), status / expiry check
   /\ pc[q] = "L_rec"
@@ -452,7 +476,7 @@ LRec(q) ==   \* Get(mapping:<id>), status / expiry check
                         \cup (IF i \in snap[q].inact THEN {"routeInactive"} ELSE {})
                         \cup (IF r.n # n \/ meta[i].c # r.c THEN {"routeForeign"} ELSE {})
           /\ Log(St(q, "L_rec", FALSE, "route:" \o ToString(i)))
-  /\ UNCHANGED <<cur, tmp, fault, cc, nleg, legdead, okc, failc, deld, delok, inact, meta, snap, dev>> /\ U_store
+  /\ UNCHANGED <<cur, tmp, fault, cc, nleg, legdead, lpend, legown, okc, failc, deld, delok, inact, meta, snap, dev>> /\ U_store
 
 \* deviation lookupWrites: the lookup removes the "stale" index entry (Delete(index:<name>)) - a lookup must
 \* leave the store unchanged (LookupPure)
@@ -461,27 +485,50 @@ LClean(q) ==
   /\ index' = [index EXCEPT ![cur[q].k] = 0]
   /\ dev' = dev \cup {"lookupWrites"}
   /\ Return(q) /\ Fallback(q, cur[q].fb)
-  /\ UNCHANGED <<nextId, rec, clist, dlock, cur, tmp, fault, cc, nleg, legdead, okc, failc, deld, delok, inact, meta, snap>>
+  /\ UNCHANGED <<nextId, rec, clist, dlock, cur, tmp, fault, cc, nleg, legdead, lpend, legown, okc, failc, deld, delok, inact, meta, snap>>
 
 \* ---- legacy HTTP mappings (management API; atomic) -------------------------------------------
 \* here = TRUE: the call is served by the proxy node (its registry is updated as well)
-LegCreate(c, n, here) ==
-  /\ nleg < MaxLegacy /\ (Serial => AllIdle)
+\* The management API creates the PortMapping and registers it: "is the name free?" and the insert are one
+\* critical section of DomainRegistry.Register (LegCreate). With "splitRegister" in Deviate they are two
+\* (LegCheck, LegInsert): every claim that passed the check is acknowledged.
+LegGuard(n, here) ==
+  /\ nleg + Cardinality(lpend) < MaxLegacy /\ (Serial => AllIdle)
   /\ reg[n] = NoLeg \/ ~here                               \* IsSubdomainAvailable of the serving node's registry
   /\ cc[n] = NoLeg                                         \* (the administrator does not book a name twice across nodes)
+
+LegEffect(c, n, here) ==
   /\ nleg' = nleg + 1
   /\ cc' = [cc EXCEPT ![n] = [id |-> nleg + 1, c |-> c]]
   /\ reg' = IF here THEN [reg EXCEPT ![n] = [id |-> nleg + 1, c |-> c]] ELSE reg
+  /\ legown' = legown \cup {[id |-> nleg + 1, n |-> n]}
   /\ dev' = dev \cup (IF \E i \in Live : meta[i].n = n THEN {"crossSourceClaim"} ELSE {})
                 \cup (IF ~here /\ reg[n] # NoLeg THEN {"staleRegistryCache"} ELSE {})
+                \cup (IF \E x \in legown : x.n = n THEN {"doubleRegister"} ELSE {})
   /\ UNCHANGED <<pc, cur, tmp, done, fault, legdead, okc, failc, deld, delok, inact, meta, snap, bad>> /\ U_store
   /\ Log(CallSt("adm", "LegCreate", "LegCreate", c, n, nleg + 1, IF here THEN "here" ELSE "other", "-"))
+
+LegCreate(c, n, here) ==
+  /\ "splitRegister" \notin Deviate
+  /\ LegGuard(n, here) /\ LegEffect(c, n, here) /\ lpend' = lpend
+
+LegCheck(c, n, here) ==
+  /\ "splitRegister" \in Deviate
+  /\ LegGuard(n, here) /\ [c |-> c, n |-> n, here |-> here] \notin lpend
+  /\ lpend' = lpend \cup {[c |-> c, n |-> n, here |-> here]}
+  /\ UNCHANGED <<reg, cc, nleg, legdead, legown, pc, cur, tmp, done, fault, okc, failc, deld, delok, inact, meta, snap, bad, dev, hist>> /\ U_store
+
+LegInsert(x) ==
+  /\ x \in lpend /\ (Serial => AllIdle)
+  /\ lpend' = lpend \ {x}
+  /\ LegEffect(x.c, x.n, x.here)
 
 LegDelete(n, here) ==
   /\ cc[n] # NoLeg /\ (Serial => AllIdle)
   /\ cc' = [cc EXCEPT ![n] = NoLeg]
   /\ reg' = IF here /\ reg[n].id = cc[n].id THEN [reg EXCEPT ![n] = NoLeg] ELSE reg    \* UnregisterByMappingID
   /\ legdead' = legdead \cup {cc[n].id}
+  /\ legown' = {x \in legown : x.id # cc[n].id} /\ lpend' = lpend
   /\ dev' = IF ~here /\ reg[n].id = cc[n].id THEN dev \cup {"staleRegistryCache"} ELSE dev
   /\ UNCHANGED <<pc, cur, tmp, done, fault, nleg, okc, failc, deld, delok, inact, meta, snap, bad>> /\ U_store
   /\ Log(CallSt("adm", "LegDelete", "LegDelete", cc[n].c, n, cc[n].id, IF here THEN "here" ELSE "other", "-"))
@@ -492,12 +539,13 @@ Next == \/ \E p \in CProcs : \/ \E n \in Names, sp \in Spell : CallCreate(p, n, 
                              \/ CPre(p) \/ CId(p) \/ CNx(p) \/ CRec(p) \/ CList(p) \/ CRbRec(p) \/ CRbIdx(p)
                              \/ CUGet(p) \/ CUSet(p)
                              \/ DGet(p) \/ DIdx(p) \/ DRec(p) \/ DList(p)
-                             \/ DLock(p) \/ DCUnlock(p) \/ DGet2(p) \/ DIGet(p) \/ DUnlock(p)
+                             \/ DFault(p) \/ DLock(p) \/ DCUnlock(p) \/ DGet2(p) \/ DIGet(p) \/ DUnlock(p)
                              \/ RLock(p) \/ RGet(p) \/ RIGet(p) \/ RIdx(p) \/ RRec(p) \/ RList(p) \/ RUnlock(p)
                              \/ UGet(p) \/ USet(p)
         \/ \E q \in LookProcs : \/ \E n \in Names, sp \in Spell : CallLookup(q, n, sp)
                                 \/ LIdx(q) \/ LRec(q) \/ LClean(q)
-        \/ \E c \in Clients, n \in Names, h \in BOOLEAN : LegCreate(c, n, h)
+        \/ \E c \in Clients, n \in Names, h \in BOOLEAN : LegCreate(c, n, h) \/ LegCheck(c, n, h)
+        \/ \E x \in lpend : LegInsert(x)
         \/ \E n \in Names, h \in BOOLEAN : LegDelete(n, h)
 Spec == Init /\ [][Next]_vars
 
@@ -508,7 +556,8 @@ TypeOK == /\ nextId \in 0..MaxId /\ fault \in 0..Faults
 
 \* (1) at most one live mapping owns a full domain name (legacy mappings count as owners too)
 Owners(n) == {i \in Live : meta[i].n = n}
-OneOwner == \A n \in Names : Cardinality(Owners(n)) + (IF cc[n] # NoLeg THEN 1 ELSE 0) <= 1
+OneOwner == \A n \in Names : Cardinality(Owners(n)) + Cardinality({x \in legown : x.n = n}) <= 1
+RegisterAtomic == "doubleRegister" \notin dev
 
 \* (2) a lookup returns the owner's mapping or rejects: never a mapping that was surely dead or
 \*     inactive before the lookup began, never one of another name / client
